@@ -392,16 +392,38 @@ static void misc_unit(void) {
       all_schedules(&s, NULL);
     }
 }
+/* boundary corpus items small enough for a complete schedule enumeration: growth steps inside load and copy */
+static void corpus_unit(uint64_t i) {
+  size_t n;
+  const uint8_t* b = vf_corpus_item(i, &n, NULL);
+  if (n > 700) return;
+  va_cap = 1 << 20;
+  struct scen L = {.kind = SC_LOAD, .in = b, .n = n};
+  vf_cnt(K_LOAD, 1);
+  all_schedules(&L, NULL);
+  va_reset();
+  struct cbor_load_result res;
+  uint8_t* in = vf_guard_put(b, n);
+  cbor_item_t* t = cbor_load(in, n, &res);
+  if (t) {
+    tree_scenarios(t, b, n > 200 ? 200 : n, 0);
+    cbor_decref(&t);
+  }
+  if (va.live) va_release_all();
+}
 static void unit(uint64_t u) {
   va_cap = 1 << 20;
+  if (u >= dfs_units + con_units + misc_units) { corpus_unit(u - dfs_units - con_units - misc_units); return; }
   if (u < dfs_units) { vf_dfs_unit(&VF_SIGMA, dfs_k, u, VF_L, 64 * 1024, seq_cb, NULL); return; }
   u -= dfs_units;
   if (u < con_units) { constructed_unit(u); return; }
-  misc_unit();
+  u -= con_units;
+  if (u < misc_units) misc_unit();
 }
-static uint64_t units(void) { return dfs_units + con_units + misc_units; }
+static uint64_t units(void) { return dfs_units + con_units + misc_units + vf_corpus_count(); }
 static void init(void) {
   vf_enum_init();
+  vf_corpus_init();
   va_install();
   vf_guard_end();
   dfs_k = vf_tier ? 4 : 3;
